@@ -28,6 +28,7 @@ EXPLANATION = (
     " Added after seed round 6: A10 arg/3 folded for N = 0..3 on a term of arity 2: positions 1..arity select args[N-1], everything else fails."
     " Added after seed round 7: A10 also requires that arg/3 hands back the term with the unified value in place; A11 functor/3 constructs over distinct fresh variables; A12 no function of the builtin / unification / extern modules writes into a mutable default parameter (positive example matched on every run)."
     " Added after seed round 8: A7 also requires that a comparison builtin leaves early only on `is None` tests of its operands."
+    " Added after seed round 9: A13 the first-element test of =../2 in construction mode is folded for lists of length 1 to 3: a non-atom head is refused only for lists longer than one."
 )
 TECHNIQUE = "static analysis: documentation/table agreement, abstract operator semantics vs frozen Prolog table, call-mode table consistency"
 LEVEL_TEXT = EXPLANATION
@@ -583,6 +584,32 @@ def rule_a12(repo, col):
     col.floor("A12.functions_scanned", n_funcs, 150)
 
 
+def rule_a13(repo, col):
+    """=../2, construction from a list: only a list of length > 1 needs an atom as its first element (T =.. [5] gives T = 5); folded for lengths 1 and 2"""
+    from .. import dtable
+
+    f = repo.func("problog.engine_builtin", "_builtin_split_call")
+    m = f.module
+    tests = [n for n in ast.walk(f.node) if isinstance(n, ast.If) and "_is_atom(" in norm(n.test) and any(isinstance(x, ast.Raise) for x in n.body)]
+    if len(tests) != 1:
+        raise AnalysisError("_builtin_split_call: first-element test not found")
+    t = tests[0]
+    atoms = [norm(x) for x in ast.walk(t.test) if isinstance(x, ast.Call) and dotted(x.func) == "_is_atom"]
+    lens = sorted({norm(x) for x in ast.walk(f.node) if isinstance(x, ast.Call) and dotted(x.func) == "len" and "elements" in norm(x)})
+    if len(set(atoms)) != 1 or len(lens) != 1:
+        raise AnalysisError("_builtin_split_call: test atoms not understood")
+    bad = []
+    for ln, is_atom, want_raise in ((1, False, False), (1, True, False), (2, False, True), (2, True, False), (3, False, True)):
+        v = dtable.eval_atom(norm(t.test), [(lens[0], ln), (atoms[0], is_atom)], default=None)
+        if v is None:
+            raise AnalysisError("_builtin_split_call: first-element test not decidable: %s" % norm(t.test))
+        if v != want_raise:
+            bad.append("list of length %d whose first element is %s: %s" % (ln, "an atom" if is_atom else "not an atom", "rejected" if v else "accepted"))
+    col.decide("A13", m, t, not bad, "T =.. L rejects a non-atom first element only for lists longer than one",
+               "=../2 in construction mode: %s - Prolog builds the term 5 from [5] and refuses only [5, a] (a number cannot be a functor)" % "; ".join(bad),
+               construct="_builtin_split_call: first-element test", function="_builtin_split_call")
+
+
 def dtable_text(src, mapping):
     from .. import dtable
 
@@ -614,3 +641,5 @@ def run(repo, col):
     rule_a10(repo, col)
     rule_a11(repo, col)
     rule_a12(repo, col)
+    col.rule("A13", "=../2 construction: first element")
+    rule_a13(repo, col)
